@@ -288,7 +288,9 @@ fn compare_block(cx: &mut Cx, len: usize, prefix: &mut Vec<usize>, oracle: bool)
 	}
 }
 
-const SEEDS: [&str; 14] = [
+const SEEDS: [&str; 16] = [
+	"/* a /* b */* c */ x: NOP; /* /* x */ /* y */ */ // z */\n.du8 1; /* /*/ */ **/ y:\n",
+	"NOP; /* **/ // */\nNOP; /* q /* r */*/ NOP; /*/**/*/ z:",
 	"start: MOVS R0, 0x1F; // comment\n\tLDR R1, [SP, 4 * (2 + 1)];\n",
 	".du8 \"text\\n\\u{41}\", 'a', '\\n', 0b101, 0o17, -9223372036854775807;\n",
 	"/* outer /* inner */ still */ loop: B loop;\n",
@@ -1234,7 +1236,7 @@ fn separator_atoms() -> Vec<(Vec<u8>, bool)>
 	[(" ", false), ("   ", false), ("\t", false), ("\t \t", false), ("\n", false), ("\r\n", false), ("\n\n\n", false), (" \r\n\t", false), ("\r", false), ("\n\r", false), (" \r ", false), ("\r\r\n\r", false),
 		("// line comment\n", true), ("//\n", true), ("// h\u{e9}llo \u{1F600} /* not a block\n", true), ("//\t\"'\\\r\n", true),
 		("/**/", true), ("/* block */", true), ("/* \u{e9}\u{20AC}\u{1F600} */", true), ("/* line1\nline2 \u{e9}\n\tline3 */", true),
-		("/* a /* nested \u{e9} */ b */", true), ("/* /* /* */ */\n */", true), ("/*/ */", true), ("/*\r\n*/", true), ("/* // */", true),
+		("/* a /* nested \u{e9} */ b */", true), ("/* /* /* */ */\n */", true), ("/* a /* b */* c */", true), ("/* /* x */ /* y */ */", true), ("/* /*/ */ **/", true), ("/* **/ // z */\n", true), ("/*/ */", true), ("/*\r\n*/", true), ("/* // */", true),
 		("/* \" ' */", true), ("/* \u{BF}\u{FF}\u{17F} */", true), ("// \u{FFFD}\u{FEFF}\u{80}\u{7FF}\n", true), ("/* \u{800}\u{FFFF}\n\u{10000}\u{3FFFF}\u{10FFFF} */", true)]
 		.iter().map(|(s, b)| (s.as_bytes().to_vec(), *b)).collect()
 }
